@@ -104,9 +104,10 @@ Step ==
             LET a == SendFold(r.ep, [snd |-> snd, done |-> done, v |-> <<>>], r.out)
                 b == RecvFold(r.ep, [slots |-> Alive(slots, r.ep, r.now), due |-> due, refused |-> refused], r.rx, r.now)
                 lp == lastPa[r.ep]
-                early == r.rx = <<>> /\ lp # -2 /\ (lp = -1 \/ r.now < lp)
+                lo == "lo" \in DOMAIN r /\ r.lo > 0   \* frames the device kept from the previous poll arrive now
+                early == r.rx = <<>> /\ ~lo /\ lp # -2 /\ (lp = -1 \/ r.now < lp)
                 q1 == IF early /\ r.out # <<>> THEN << <<l, "Q1", r.ep, r.now, lp>> >> ELSE <<>>
-                idle == r.rx = <<>> /\ r.out = <<>>
+                idle == r.rx = <<>> /\ ~lo /\ r.out = <<>>
                 q2 == IF idle /\ ~("bp" \in DOMAIN r /\ r.bp) /\ r.pa # -1 /\ r.pa <= r.now THEN << <<l, "Q2", r.ep, r.now, r.pa>> >> ELSE <<>>
             IN /\ snd' = a.snd /\ done' = a.done /\ slots' = b.slots /\ due' = b.due /\ refused' = b.refused
                /\ viol' = AddAll(viol, a.v \o q1 \o q2)
